@@ -14,6 +14,7 @@ package client
 
 import (
 	"context"
+	"fmt"
 	"math/rand"
 	"net"
 	"sync"
@@ -70,13 +71,14 @@ type c18Stream struct {
 	ss     tikvpb.Tikv_BatchCommandsServer
 	killAt int // the handler returns after this many requests (0: never)
 
-	mu       sync.Mutex // guards everything below and serialises ss.Send
-	dead     bool
-	held     []c18Item
-	received []*c18Call
-	nrecv    int
-	fbSeq    uint64
-	msgSeq   int64 // number of response messages sent on this stream
+	mu        sync.Mutex // guards everything below and serialises ss.Send
+	dead      bool
+	held      []c18Item
+	received  []*c18Call
+	nrecv     int
+	fbSeq     uint64
+	msgSeq    int64     // number of response messages sent on this stream
+	delivered []c18Item // (id, kind, key) of responses delivered by earlier messages of this stream
 }
 
 type c18SrvPlan struct {
@@ -89,6 +91,7 @@ type c18SrvPlan struct {
 	shufflePct  int // per batch: percentage answered at once but shuffled and split
 	loadPct     int // percentage of responses carrying a transport-layer load above the threshold
 	feedbackPct int
+	stalePct    int // percentage of response messages that additionally carry a stale (re-delivered / never used) id
 }
 
 type c18Server struct {
@@ -108,6 +111,7 @@ type c18Server struct {
 	nstreams  atomic.Int64
 	totalRecv atomic.Int64
 	stopped   atomic.Bool
+	neverUsed atomic.Int64
 }
 
 func c18NewServer(run *c18Run, plan c18SrvPlan, rng *rand.Rand) *c18Server {
@@ -241,7 +245,59 @@ func (st *c18Stream) sendLocked(s *c18Server, items []c18Item, rng *rand.Rand) {
 	}
 	resp := &tikvpb.BatchCommandsResponse{}
 	st.msgSeq++
-	for _, it := range items {
+	// Hostile re-delivery: the message additionally carries, at the first / a middle / the last position, an id the
+	// client does not track any more — a copy of an (id, response) pair that an EARLIER message of this very stream
+	// has already delivered (the single recv loop of the stream has processed that message by now), or an id the
+	// client never allocated.  Ids and responses stay aligned; the client's "outdated response" branch must skip it.
+	staleAt := -1
+	if rng.Intn(100) < s.plan.stalePct {
+		switch p := rng.Intn(3); {
+		case p == 0:
+			staleAt = 0
+		case p == 1 && len(items) >= 2:
+			staleAt = 1 + rng.Intn(len(items)-1)
+		default:
+			staleAt = len(items)
+		}
+	}
+	addStale := func() {
+		var id uint64
+		var r *tikvpb.BatchCommandsResponse_Response
+		if len(st.delivered) > 0 && rng.Intn(5) > 0 {
+			d := st.delivered[rng.Intn(len(st.delivered))]
+			id, r = d.reqID, c18BatchResp(d.kind, d.key)
+			s.run.count("srv_stale_redelivered", 1)
+		} else {
+			n := s.neverUsed.Add(1)
+			id, r = 1<<62+uint64(n), c18BatchResp(rng.Intn(c18NPlainKinds), []byte(fmt.Sprintf("stale-never-used-%d", n)))
+			s.run.count("srv_stale_never_used", 1)
+		}
+		resp.RequestIds = append(resp.RequestIds, id)
+		resp.Responses = append(resp.Responses, r)
+		s.run.count("srv_stale_injected", 1)
+		switch {
+		case staleAt == 0:
+			s.run.count("srv_stale_pos_first", 1)
+		case staleAt == len(items):
+			s.run.count("srv_stale_pos_last", 1)
+		default:
+			s.run.count("srv_stale_pos_middle", 1)
+		}
+		if live := len(items) - staleAt; live > 0 {
+			s.run.count("srv_stale_msgs_with_live_after", 1)
+			s.run.count("srv_stale_live_responses_after", live)
+			if live >= 2 {
+				s.run.count("srv_stale_msgs_with_2plus_live_after", 1)
+			}
+		}
+		if len(items) >= 3 {
+			s.run.count("srv_stale_msgs_with_3plus_live", 1)
+		}
+	}
+	for i, it := range items {
+		if i == staleAt {
+			addStale()
+		}
 		if it.call != nil {
 			it.call.ansStream.Store(st.id)
 			it.call.ansSeq.Store(st.msgSeq)
@@ -252,6 +308,9 @@ func (st *c18Stream) sendLocked(s *c18Server, items []c18Item, rng *rand.Rand) {
 		}
 		resp.RequestIds = append(resp.RequestIds, it.reqID)
 		resp.Responses = append(resp.Responses, c18BatchResp(it.kind, it.key))
+	}
+	if staleAt == len(items) {
+		addStale()
 	}
 	if rng.Intn(100) < s.plan.feedbackPct {
 		st.fbSeq++
@@ -266,6 +325,15 @@ func (st *c18Stream) sendLocked(s *c18Server, items []c18Item, rng *rand.Rand) {
 	s.run.count("srv_resp_msgs", 1)
 	if err := st.ss.Send(resp); err != nil {
 		st.dead = true
+		return
+	}
+	// remember what this message delivered: candidates for re-delivery in LATER messages
+	for _, it := range items {
+		if len(st.delivered) < 64 {
+			st.delivered = append(st.delivered, it)
+		} else {
+			st.delivered[rng.Intn(64)] = it
+		}
 	}
 }
 
